@@ -231,7 +231,8 @@ namespace adept {
     line_search(Optimizable& optimizable, Vector x, const Vector& direction,
 		Vector test_x, Real& abs_step_size,
 		Vector gradient, int& state_up_to_date,
-		Real curvature_coeff, Real bound_step_size = -1.0);
+		Real curvature_coeff, Real bound_step_size = -1.0,
+		const Vector* min_x = 0, const Vector* max_x = 0);
 
     // Compute the cost function "cf" and gradient vector "gradient",
     // along with the scalar gradient "grad" in the search direction
@@ -251,7 +252,9 @@ namespace adept {
 			       Vector gradient, int& state_up_to_date,
 			       Real step_size, Real grad0, Real dir_scaling,
 			       Real& cost_function, Real& grad,
-			       Real curvature_coeff);
+			       Real curvature_coeff,
+			       const Vector* min_x = 0,
+			       const Vector* max_x = 0);
 
     // DATA
 
